@@ -5,8 +5,11 @@ pub use refmodel::*;
 pub use vengine::*;
 
 pub mod casts;
+pub mod consts;
 pub mod fmt_table;
 pub mod fmtcheck;
+pub mod endian;
+pub mod floats;
 pub mod matrix;
 pub mod plans;
 pub mod strapi;
